@@ -78,7 +78,7 @@ def replay(scn):
     op = i["op"]
     viol, calls = [], 0
     d = i["d"] - 1
-    kvars = ["i", "f"] if (op == "diff" and i["scheme"] == "centered") else ["i", "f", "s"]
+    kvars = ["i", "f"] if (op == "diff" and i["scheme"] == "centered") else ["i", "f", "s", "u"]
     old = np.seterr(all="ignore")
     try:
         for kind in kvars:
